@@ -178,9 +178,9 @@ def _c17_cov(res):
 P["C17"] = {
     "lean_modules": ["Heathcliff.Props.C17"],
     "level": "proof",
-    "runs": lambda tier, seed: ([{"seed": seed}] if tier == "quick" else
-                                [{"seed": seed, "args": [p]} for p in ("sk2", "sk3", "sk4", "gal2", "gal3")]),
-    "search": lambda tier, seed: [{"seed": seed * 7919 + 1, "args": ["sk2"]}, {"seed": seed * 7919 + 2, "args": ["gal2"]}],
+    "runs": lambda tier, seed: ([{"seed": seed}, {"seed": seed, "args": ["freerun"]}] if tier == "quick" else
+                                [{"seed": seed, "args": [p]} for p in ("sk2", "sk3", "sk4", "gal2", "gal3", "freerun")]),
+    "search": lambda tier, seed: [{"seed": seed * 7919 + 1, "args": ["freerun"]}, {"seed": seed * 7919 + 1, "args": ["sk2"]}, {"seed": seed * 7919 + 2, "args": ["gal2"]}],
     "rule": "Real threads under a token-passing scheduler (hook H4 yield points, never while a lock is held). Quick: ALL interleavings of 2 threads for "
             "every ordered pair of requested powers 1..4 (decrypting ciphertexts of sizes 2..5 obtained by multiplying without relinearization; BFV and "
             "CKKS Decryptor; KeyGenerator relinearization keys of count 1..3), fresh and pre-grown caches; ALL interleavings of 2 concurrent rotations for "
